@@ -182,10 +182,10 @@ PROPS['C11'] = dict(
     explanation='from_u16/as_u16/From impls round-trip for all 65536 codes; known-code set pinned to 0..=748 and 767; transmutes construct no invalid value for 0..=767; discriminant lists equal 0..=767; output filter contract.',
     verus=[dict(unit='keys')],
     kani=[
-        H('parser', 'keys', 'c11_k_code_roundtrip', kind='complete', covers='all 65536 u16 codes', functions=[K + 'mod.rs OsCode::from_u16', K + 'mod.rs OsCode::as_u16', K + 'linux.rs OsCode::from_u16_linux', K + 'linux.rs OsCode::as_u16_linux', K + 'mappings.rs From<KeyCode> for OsCode', K + 'mappings.rs From<OsCode> for KeyCode']),
-        H('parser', 'keys', 'c11_k_known_codes', kind='complete', covers='all 65536 u16 codes'),
-        H('parser', 'keys', 'c11_k_ignored_range_known', kind='complete'),
-        H('parser', 'keys', 'c11_k_int_conversions', kind='complete', functions=[K + 'mod.rs TryFrom<usize>/From<u32>/From<u16> for OsCode']),
+        H('parser', 'keys', 'c11_k_codes', kind='complete', covers='all 65536 u16 codes', timeout=1500, functions=[K + 'mod.rs OsCode::from_u16', K + 'mod.rs OsCode::as_u16', K + 'linux.rs OsCode::from_u16_linux', K + 'linux.rs OsCode::as_u16_linux', K + 'mappings.rs From<KeyCode> for OsCode', K + 'mappings.rs From<OsCode> for KeyCode', K + 'mod.rs From<OsCode> for u16/u32/i32/usize']),
+        H('parser', 'keys', 'c11_k_codes_neg', kind='complete', expect='fail', timeout=1500, covers='must-fail twin: every code < 768 known'),
+        H('parser', 'keys', 'c11_k_int_conversions', kind='complete', tier='thorough', timeout=3000, functions=[K + 'mod.rs TryFrom<usize>/From<u32>/From<u16> for OsCode']),
+        H('parser', 'cfg', 'c11_b_defsrc_identity', kind='bounded', bound='concrete 767-iteration loop, symbolic index', tier='thorough', timeout=3600, functions=['parser/src/cfg/mod.rs create_defsrc_layer']),
         H('parser', 'keys', 'c11_k_transmute_valid', kind='complete', flags=['valid-value-checks'], covers='all codes 0..=767, UB check on'),
         H('parser', 'keys', 'c11_k_transmute_valid_neg', kind='complete', flags=['valid-value-checks'], expect='fail', covers='must-fail twin: 768'),
     ],
@@ -195,6 +195,104 @@ PROPS['C11'] = dict(
         'only target_os = "linux" arms',
     ],
     trusted_base=['rustc', 'Kani 0.68.0 / CBMC 6.11.0', 'Verus 0.2026.09.13 / Z3 (by(compute_only) for the discriminant lists)', 'vendored backtrace one-line patch (tooling only)'],
+)
+
+PROPS['C17'] = dict(
+    level='other',
+    level_text=('Bounded contract check (Kani/CBMC) on the real crate: WaitingState::handle_tap_dance and tick_wt (TapDance arm) against the counting rule of '
+                'the statement (count = 1 + own presses before the first foreign press; decide on timeout / foreign press / list exhausted; chosen action = '
+                'the N-th, the last if N reaches the length; queue keeps everything but own presses and all but the last own release, in order), for all '
+                'clocks, lists of 1..=4 actions, queues of <= 4 events over 3 keys; TapDanceEagerState methods completely.'),
+    level_note='Trusted: rustc, Kani + CBMC. Not decided: the eager path in Layout::dequeue; that the interrupting key is processed after the chosen action (Layout::waiting_into_tap).',
+    technique='contract harnesses (Kani/CBMC): symbolic waiting state + bounded symbolic queue, counting oracle from the statement, queue frame',
+    design_ref='DESIGN.md section 4, C17',
+    explanation='handle_tap_dance / tick_wt(TapDance) / TapDanceEagerState::{tick_tde,is_expired,set_expired,incr_taps}.',
+    verus=[],
+    kani=[
+        H('keyberon', 'layout', 'c17_b_handle_tap_dance', kind='bounded', bound='queue <= 4 events over 3 keys, lists 1..=4', functions=[L + 'WaitingState::handle_tap_dance']),
+        H('keyberon', 'layout', 'c17_b_tick_wt_tap_dance', kind='bounded', bound='queue <= 4 events over 3 keys, lists 1..=4', functions=[L + 'WaitingState::tick_wt (TapDance arm)']),
+        H('keyberon', 'layout', 'c17_k_eager_state', kind='complete', functions=[L + 'TapDanceEagerState::{tick_tde,is_expired,set_expired,incr_taps}']),
+        H('keyberon', 'layout', 'c17_b_handle_tap_dance_neg', kind='bounded', expect='fail', covers='must-fail twin'),
+    ],
+    assumptions=['eager path in Layout::dequeue and the ordering "interrupting key after the chosen action" (waiting_into_tap) are NOT under contract',
+                 'queues longer than 4 events are not explored'],
+    trusted_base=['rustc', 'Kani 0.68.0 / CBMC 6.11.0 / CaDiCaL'],
+)
+
+A = 'keyberon/src/action.rs '
+CH = 'keyberon/src/chord.rs '
+PROPS['C09'] = dict(
+    level='other',
+    level_text=('Bounded contract check (Kani/CBMC) on the real crate. v1: ChordsGroup::{get_chord, get_chord_if_unambiguous, get_keys} over symbolic 128-bit key '
+                'sets and tables of <= 3 chords (exact-set match; unambiguous iff no strict superset is defined). v2: get_active_chord (release rule), '
+                'drain_releases (participant release bookkeeping, non-participants change nothing, releases forwarded iff no press pending), '
+                'clear_released_chords (one virtual-coordinate release per released chord), get_action_chv2 (each chord handed out once), next_coord in 851..=900 (complete).'),
+    level_note='Trusted: rustc, Kani + CBMC. Not decided: WaitingState::handle_chord accumulation and decomposition, ChordsV2::process_presses (reads an FxHashMap), the re-issue of the v1 action on every participant in waiting_into_tap.',
+    technique='contract harnesses (Kani/CBMC): symbolic tables / queues within stated bounds, set-theoretic oracles from the statement',
+    design_ref='DESIGN.md section 4, C09',
+    explanation='chord tables (v1) and chord release tracking (v2).',
+    verus=[],
+    kani=[
+        H('keyberon', 'action', 'c09_b_get_chord', kind='bounded', bound='<= 3 chords, 128-bit sets symbolic', functions=[A + 'ChordsGroup::get_chord']),
+        H('keyberon', 'action', 'c09_b_get_chord_if_unambiguous', kind='bounded', bound='<= 3 chords', functions=[A + 'ChordsGroup::get_chord_if_unambiguous']),
+        H('keyberon', 'action', 'c09_b_get_keys', kind='bounded', bound='<= 3 coordinates', functions=[A + 'ChordsGroup::get_keys']),
+        H('keyberon', 'action', 'c09_b_get_chord_if_unambiguous_neg', kind='bounded', expect='fail', covers='must-fail twin'),
+        H('keyberon', 'chord', 'c09_k_next_coord', kind='complete', functions=[CH + 'ChordsV2::next_coord']),
+        H('keyberon', 'chord', 'c09_b_get_active_chord', kind='bounded', bound='<= 3 participants', functions=[CH + 'get_active_chord']),
+        H('keyberon', 'chord', 'c09_b_get_action_once', kind='bounded', bound='<= 3 active chords', functions=[CH + 'ChordsV2::get_action_chv2']),
+        H('keyberon', 'chord', 'c09_b_drain_releases', kind='bounded', bound='queue <= 3 events over 4 keys, 1 active chord of 2 keys', functions=[CH + 'ChordsV2::drain_releases']),
+        H('keyberon', 'chord', 'c09_b_clear_released', kind='bounded', bound='<= 3 active chords', functions=[CH + 'ChordsV2::clear_released_chords']),
+        H('keyberon', 'chord', 'c09_b_drain_releases_neg', kind='bounded', expect='fail', covers='must-fail twin'),
+    ],
+    assumptions=['handle_chord (v1 accumulation / abort reasons / PressedQueue), decompose_chord_into_action_queue and ChordsV2::process_presses are NOT under contract',
+                 'parser guarantee used as precondition: chord key sets within a group are unique'],
+    trusted_base=['rustc', 'Kani 0.68.0 / CBMC 6.11.0 / CaDiCaL'],
+)
+
+
+def _c02_kani():
+    """C02 = union of the panic-/overflow-freedom obligations of every harness that must pass.
+    quick: one representative per unit; thorough: all of them."""
+    quick = {'c09_k_next_coord', 'c06_b_tick', 'c06_b_release_overflow', 'c05_b_tick_wt_hold_tap', 'c17_b_tick_wt_tap_dance',
+             'c09_b_get_action_once', 'c03_b_debug_shape_empty', 'c03_k_span_cover'}
+    out = [
+        H('keyberon', 'layout', 'c02_b_history', kind='bounded', bound='<= 10 pushes into the 8-slot history', functions=[L + 'History::{push_front,tick_hist,iter_hevents}']),
+        H('keyberon', 'layout', 'c02_k_history_saturates', kind='complete'),
+    ]
+    seen = set(h['name'] for h in out)
+    for pid in ('C03', 'C05', 'C06', 'C09', 'C10', 'C11', 'C17'):
+        for h in PROPS[pid]['kani']:
+            if h.get('expect') == 'fail' or h['name'] in seen:
+                continue
+            seen.add(h['name'])
+            hh = dict(h)
+            if h['name'] not in quick:
+                hh['tier'] = 'thorough'
+            else:
+                hh['tier'] = 'quick'
+            out.append(hh)
+    return out
+
+
+PROPS['C02'] = dict(
+    level='other',
+    level_text=('Partial. Absence of panics, arithmetic overflow, out-of-bounds indexing, failed unwrap/expect/assert!/unreachable! is an obligation of every '
+                'function under contract for the other properties; C02 reports the union. Unbounded (Verus): all of dynamic_macro.rs recorder/replayer '
+                'functions for EVERY state (no preconditions) and the switch codec/decoder under their stated preconditions. Bounded (Kani): one-shot, '
+                'tap-hold, tap-dance, chord, history and diagnostics functions within the bounds listed per harness. Layout::{tick,do_action,event,resolve_coord}, '
+                'every Kanata method and the parser are NOT covered.'),
+    level_note='The universal statement (whole system, all accepted configs, all histories) is out of reach of contracts; only per-function panic-freedom is decided. Parser-side range checks the run time relies on (non-zero intervals, depth <= 8) are assumed.',
+    technique='contract-based: Verus (overflow/bounds/unwrap/assert sites as obligations) + Kani default checks on the harnesses of C03 C05 C06 C09 C10 C11 C17',
+    design_ref='DESIGN.md section 4, C02',
+    explanation='union of panic-freedom obligations; quick tier runs one representative harness per unit, thorough all of them',
+    verus=[dict(unit='dynmacro', only=DYN_FUNCS), dict(unit='switch')],
+    kani=_c02_kani(),
+    assumptions=[
+        'NOT covered: Layout::{tick, do_action, event, resolve_coord, process_sequences}, ChordsV2::process_presses, every Kanata method, the parser',
+        'switch evaluation: expression depth <= 8 and well-formed opcode stream are preconditions (parser promises, unchecked)',
+        'observed, not under any obligation: resolve_coord asserts y <= len then indexes [y]; chords v2 drain_releases/process_presses debug_assert on > 16 queued presses (debug builds only); get_active_chord extend() panics for a chord with > 16 participants',
+    ],
+    trusted_base=['rustc', 'Verus 0.2026.09.13 / Z3', 'Kani 0.68.0 / CBMC 6.11.0'],
 )
 
 
